@@ -462,3 +462,108 @@ def run_outparam_tested(prog, ctx=None):
                        "" if ok else "%s is read (line %s) while the result of %s() may be %s; for results in %s the callee does not write it" % (
                            uninit[vid], bad[0].get("l"), cs[0].qn, bad[1], unw), {"unwritten_on": unw.tojson()})
     return res
+
+
+def run_containerof(prog, ctx=None):
+    """CONTAINEROF: a pointer to an embedded interface object is turned into a pointer to the record that embeds it by going back
+    exactly the offset of a member of that type: `(R *)((int8_t *) p - k)` (MPT_baseaddr) needs a member of R at offset k whose
+    type is what p points to; `(R *)(p + c)` / `(R *)(p - c)` in units of *p likewise with k = -c * sizeof(*p)."""
+    res = Result("CONTAINEROF")
+    files = set(ctx.get("files", [])) if ctx and ctx.get("files") else None
+    from .rules_path import funcs_of
+
+    def short(a):
+        return (a or "").replace("mpt::", "").replace("mpt_", "")
+
+    def parents(T, depth=0):
+        """interfaces a C interface record extends: its vtable record starts with the parent's vtable record"""
+        out = set()
+        rec = prog.records.get(T)
+        if not rec or depth > 3:
+            return out
+        for fl in rec["fields"][:1]:
+            FT = rec["unit"].types[fl["t"]] if fl["t"] is not None and fl["t"] >= 0 else {}
+            if fl["n"] == "_vptr" and FT.get("k") == "ptr":
+                V = rec["unit"].types[FT["to"]] if FT.get("to") is not None and FT["to"] >= 0 else {}
+                vrec = prog.records.get(V.get("name")) if V.get("k") == "record" else None
+                for vf in (vrec or {}).get("fields", [])[:1]:
+                    W = vrec["unit"].types[vf["t"]] if vf["t"] is not None and vf["t"] >= 0 else {}
+                    if W.get("k") == "record" and "vptr_" in (W.get("name") or ""):
+                        par = W["name"].split("vptr_", 1)[1]
+                        out.add(par)
+                        out |= parents("mpt_" + par, depth + 1)
+        return out
+
+    def same(a, b):
+        """member type a serves for a pointer to b: the same record, or an interface that extends b"""
+        return short(a) == short(b) or short(b) in {short(x) for x in parents(a)}
+
+    def member_at(R, S, k, depth=0):
+        """name of the (possibly nested) member of record R at byte offset k whose type is S (an interface embedded as the
+        first member of another interface counts: a metatype starts with its convertable part)"""
+        rec = prog.records.get(R)
+        if not rec or depth > 4 or k < 0:
+            return None
+        for bs in rec.get("bases") or []:
+            if same(bs.get("name"), S) and (bs.get("off", 0) or 0) == k:
+                return "<base>"
+        for fl in rec["fields"]:
+            T = rec["unit"].types[fl["t"]] if fl["t"] is not None and fl["t"] >= 0 else {}
+            if T.get("k") != "record" or fl.get("off") is None:
+                continue
+            if fl["off"] == k and same(T.get("name"), S):
+                return fl["n"]
+            if fl["off"] <= k < fl["off"] + (T.get("sz") or 0):
+                m = member_at(T.get("name"), S, k - fl["off"], depth + 1)
+                if m:
+                    return fl["n"] + "." + m
+        return None
+
+    def has_member_of(R, S, depth=0):
+        rec = prog.records.get(R)
+        if not rec or depth > 4:
+            return False
+        for fl in rec["fields"]:
+            T = rec["unit"].types[fl["t"]] if fl["t"] is not None and fl["t"] >= 0 else {}
+            if T.get("k") == "record" and (same(T.get("name"), S) or has_member_of(T.get("name"), S, depth + 1)):
+                return True
+        return False
+
+    for f in funcs_of(prog, files):
+        for b, i, n in f.walk_all():
+            if n.get("k") != "cast" or n.get("ck") != "BitCast":
+                continue
+            T = f.T(n.get("t"))
+            if T.get("k") != "ptr":
+                continue
+            R = f.T(T.get("to"))
+            if R.get("k") != "record":
+                continue
+            r = strip(n["e"], all_casts=True)
+            if not (r.get("k") == "bin" and r.get("op") in ("+", "-") and cval(r["b"]) is not None):
+                continue
+            c = cval(r["b"])
+            # the pointer whose object is embedded: through the byte cast of MPT_baseaddr, or used directly
+            a = r["a"]
+            unit = 1
+            inner = strip(a, all_casts=True)
+            AT = f.T(a.get("t"))
+            if AT.get("k") == "ptr":
+                ET = f.T(AT.get("to"))
+                unit = ET.get("sz", 1) or 1
+            PT = f.T(inner.get("t"))
+            if PT.get("k") != "ptr":
+                continue
+            S = f.T(PT.get("to"))
+            if S.get("k") != "record" or S.get("name") == R.get("name"):
+                continue
+            if not has_member_of(R.get("name"), S.get("name")):
+                continue          # not a container relation (payload behind a header, unrelated cast)
+            k = -(c if r["op"] == "+" else -c) * unit
+            m = member_at(R.get("name"), S.get("name"), k)
+            ok = m is not None
+            res.ob("%s:%s" % (f.qn, norm(show(n, f))[:70]), ok, f, n.get("l", f.line),
+                   "" if ok else "%s: a pointer to %s is taken back %d bytes to a %s, which has no member of that type at offset %d" % (
+                       f.qn, S.get("name"), k, R.get("name"), k), {"member": m, "offset": k})
+            res.count("sites")
+    return res
